@@ -102,8 +102,18 @@ def validate(traces, jobs=16, batch=None, cfg=None, module='FBTrace.tla', timeou
         groups.setdefault({('c', 'k'): 'CP_CK', ('c', 'c2', 'k'): 'CP_CCK'}.get(tuple(t.get('cache') or ()), 'CP_K'), []).append(t)
     chunks = []
     for cp, ts in groups.items():
-        b = batch or max(1, (len(ts) + jobs - 1) // jobs)
-        chunks += [(cp, ts[i:i + b]) for i in range(0, len(ts), b)]
+        if batch:
+            chunks += [(cp, ts[i:i + batch]) for i in range(0, len(ts), batch)]
+            continue
+        # one JVM per bin; bins balanced by the number of events (a few very long traces - the `bulk` histories -
+        # would otherwise sit in one batch and dominate the wall time): longest first into the lightest bin
+        nb = min(jobs, len(ts))
+        bins = [[0, []] for _ in range(nb)]
+        for t in sorted(ts, key=lambda t: -len(t['events'])):
+            b = min(bins, key=lambda x: x[0])
+            b[0] += len(t['events']) + 5
+            b[1].append(t)
+        chunks += [(cp, b[1]) for b in bins if b[1]]
     t0 = time.time()
     verdicts = {}
     tot = {'states': 0, 'distinct': 0, 'depth': 0, 'jvms': len(chunks)}
